@@ -171,18 +171,35 @@ func Load(o Options) (*Prog, error) {
 func (p *Prog) indexSingleCallers() {
 	sites := map[*ssa.Function][]ssa.CallInstruction{}
 	escaped := map[*ssa.Function]bool{}
-	ifaceMethods := map[string]bool{}
+	ifaceByMethod := map[string][]*types.Interface{}
 	for _, pk := range p.Pkgs {
 		sc := pk.Types.Scope()
 		for _, nm := range sc.Names() {
 			if tn, ok := sc.Lookup(nm).(*types.TypeName); ok {
 				if it, ok := tn.Type().Underlying().(*types.Interface); ok {
 					for i := 0; i < it.NumMethods(); i++ {
-						ifaceMethods[it.Method(i).Name()] = true
+						ifaceByMethod[it.Method(i).Name()] = append(ifaceByMethod[it.Method(i).Name()], it)
 					}
 				}
 			}
 		}
+	}
+	// a method can be reached through an interface only if its receiver type implements
+	// an interface that declares a method of that name
+	viaInterface := func(f *ssa.Function) bool {
+		if f.Signature.Recv() == nil {
+			return false
+		}
+		rt := f.Signature.Recv().Type()
+		for _, it := range ifaceByMethod[f.Name()] {
+			if types.Implements(rt, it) {
+				return true
+			}
+			if _, isPtr := rt.(*types.Pointer); !isPtr && types.Implements(types.NewPointer(rt), it) {
+				return true
+			}
+		}
+		return false
 	}
 	methodValueSites = map[*ssa.Function][]*ssa.MakeClosure{}
 	for _, fn := range p.Funcs {
@@ -229,7 +246,7 @@ func (p *Prog) indexSingleCallers() {
 		if escaped[f] || f.Parent() != nil || !InRepo(f) || f.Object() == nil || f.Object().Exported() {
 			continue
 		}
-		if f.Signature.Recv() != nil && ifaceMethods[f.Name()] {
+		if f.Signature.Recv() != nil && viaInterface(f) {
 			continue
 		}
 		allSites[f] = cs
@@ -239,7 +256,7 @@ func (p *Prog) indexSingleCallers() {
 		if len(cs) != 1 || escaped[f] || f.Parent() != nil || !InRepo(f) || f.Object() == nil || f.Object().Exported() {
 			continue
 		}
-		if f.Signature.Recv() != nil && ifaceMethods[f.Name()] {
+		if f.Signature.Recv() != nil && viaInterface(f) {
 			continue
 		}
 		if f.Signature.Variadic() {
